@@ -112,6 +112,14 @@ class Batch:
                     f.write(src)
         # compile everything; per-package errors
         p = core.run(["go", "build", "-gcflags=-e", "./..."], cwd=self.root, timeout=3600)
+        txt = p.stdout + p.stderr
+        # the shared Go build cache being trimmed (or the disk filling up) under a running build is not an observation
+        if p.returncode != 0 and (("go-build" in txt and "no such file or directory" in txt) or "no space left on device" in txt
+                                  or "could not import" in txt and "go-build" in txt):
+            p = core.run(["go", "build", "-gcflags=-e", "./..."], cwd=self.root, timeout=3600)
+            txt = p.stdout + p.stderr
+            if p.returncode != 0 and (("go-build" in txt and "no such file or directory" in txt) or "no space left on device" in txt):
+                raise core.InfraError("go build of the case module failed on the build cache / disk, twice:\n" + txt[-2000:])
         errs = {}
         cur = None
         for ln in (p.stdout + p.stderr).splitlines():
